@@ -87,6 +87,7 @@ class Layout:
         self.has_writer = bool(case["writer"])
         self.user_kw = {"tag": 7, "other": "x"} if case.get("kw") else None
         bags = case["bags"]
+        ba = bool(case.get("ba"))
         if not bags or any(not b for b in bags) or any(not p for b in bags for p in b):
             raise HarnessError("case has an empty bag or partition: %r" % (bags,))
         if self.m < 1 or self.wpc < 1 or self.spill < 0 or self.min_part < 1:
@@ -101,7 +102,8 @@ class Layout:
                 pp = []
                 for sz in p:
                     bb = chunk_bytes(i, int(sz))
-                    pp.append((bb, i))
+                    # SomeData = bytes | bytearray: every other chunk is handed over as a bytearray when "ba" is set
+                    pp.append((bytearray(bb) if (ba and i % 2 == 0) else bb, i))
                     self.observed.append([len(bb), i])
                     data.append(bb)
                     i += 1
@@ -519,7 +521,9 @@ def o_l2(case, T):
         T.cls("sched_" + sched)
     if any(m == "seq" for m in modes):
         T.cls("bag_from_sequence")
-    if any(len(b) > 4 for b in L.bags):
+    if any(len(b) > 16 for b in L.bags):
+        T.cls("fold_three_levels")
+    elif any(len(b) > 4 for b in L.bags):
         T.cls("fold_two_levels")
     _classify(L, T, None, nwritten)
 
@@ -554,17 +558,21 @@ def s_case(draw, flags=(0, 0, 0), writer=True, l2=False):
                                 spill + 2 * m, max(spill + 2 * m - 1, 0), spill + m, spill + 3 * m + 1})),
         st.integers(0, 5 * m),
     )
-    nb = draw(st.sampled_from([1, 1, 1, 2, 2, 3]))
+    wide = l2 and draw(st.integers(0, 7)) == 0  # one bag, 7..18 partitions: 2- and 3-level dask fold
+    nb = 1 if wide else draw(st.sampled_from([1, 1, 1, 2, 2, 3]))
     bags = []
     budget = 10 if l2 else 12
     for bi in range(nb):
         left = nb - bi - 1
         hi = max(1, min(6, budget - left))
-        npart = min(hi, draw(st.sampled_from([1, 2, 2, 3, 3, 4, 5, 6])))
+        if wide:
+            npart = draw(st.integers(7, 18))
+        else:
+            npart = min(hi, draw(st.sampled_from([1, 2, 2, 3, 3, 4, 5, 6])))
         budget -= npart
         bag = []
         for _ in range(npart):
-            nch = draw(st.sampled_from([1, 1, 1, 2, 2, 3, 4]))
+            nch = draw(st.sampled_from([1, 1, 1, 2] if wide else [1, 1, 1, 2, 2, 3, 4]))
             bag.append([draw(size) for _ in range(nch)])
         bags.append(bag)
     last = bags[-1][-1]
@@ -577,7 +585,7 @@ def s_case(draw, flags=(0, 0, 0), writer=True, l2=False):
     k = min(nact, 20) if not l2 else 12
     sched = draw(st.lists(st.integers(0, 7), min_size=k, max_size=k))
     case = {"m": m, "spill": spill, "wpc": wpc, "hdr": hdr, "ftr": ftr, "min_part": min_part, "slack": slack,
-            "writer": bool(writer), "kw": kw, "bags": bags, "sched": sched}
+            "writer": bool(writer), "kw": kw, "ba": draw(st.booleans()), "bags": bags, "sched": sched}
     if l2:
         modes = [draw(st.sampled_from(["cut", "cut", "seq"])) for _ in bags]
         if writer and ftr is None and not final_multi:
